@@ -246,6 +246,7 @@ pub fn c17(rng: &mut Rng, thorough: bool, _idx: u64) -> Spec {
         p.steps.push(Step::Terminate);
         let mut c = client(id, "app", "db", "apppw", 0, p.steps);
         c.start = When::After { ev: "sig".into(), delay_ms: rng.range(1, 100) };
+        c.ssl_probe = rng.chance(0.4);
         kinds.insert(id.to_string(), serde_json::json!("arrival"));
         clients.push(c);
     }
